@@ -1,10 +1,11 @@
 (* C03 - PreGER multi-setup SSI identifies the global system exactly on noise-free data; the reference / roving split
    keeps every channel intact and ordered.
-   Statements only: each theorem is closed by [exact] of a lemma of Proofs/P_split.v / Proofs/P_multi_ssi.v. *)
+   Statements only: each theorem is closed by [exact] of a lemma of Proofs/P_split.v / Proofs/P_multi_ssi.v /
+   Proofs/P_eigcount_c03.v / Proofs/P_multi_ssi_dim.v. *)
 From Coq Require Import List Arith Lia Ring ZArith QArith Qcanon Permutation Bool.
-From PyOMA.Base Require Import Carrier FMat Show EigCount.
+From PyOMA.Base Require Import Carrier FMat Cplx Show EigCount Dim.
 From PyOMA.Model Require Import M_split M_multi_ssi.
-From PyOMA.Proofs Require Import P_split P_multi_ssi P_eigcount_c03.
+From PyOMA.Proofs Require Import P_split P_multi_ssi P_eigcount_c03 P_multi_ssi_dim.
 Import ListNotations.
 
 (* ================= the reference / roving split (gen.pre_multisetup), any element type ================= *)
@@ -261,14 +262,290 @@ Theorem C03_multiplicity_linv :
 Proof. exact (ms_modal_linv R K Rth Hint H10 Rdec). Qed.
 End MM.
 
-(* What is NOT proved (asserts nothing).  The statement below is the modal level WITHOUT the three extra hypotheses of
-   C03_multiplicity: (a) decidable equality on the carrier (needed to pick a non-zero coordinate of an eigenvector; holds
-   at Qc and, classically, at the reals and their complexifications - with it, field_theory gives "no zero divisors" and
-   1 <> 0 by EigCount.field_integral / field_one_neq_zero); (b) Ti 0 . T 0 = I (only the right inverses T k . Ti k = I are
-   assumed here; for square matrices one implies the other, which is dimension theory); Psi is given two-sided invertible
-   here, C03_multiplicity needs the left inverse only.  Also not proved: the same with ordmax > n, every per-setup matrix
-   zero-padded to [O_k T_k, 0] (pinv [X,0] = [X^+;0]); the transcendental map of ac2mp (proved for C01 at the reals);
-   and the single-setup realisation step that delivers the hypothesis on obs k (C01). *)
+(* ================= the modal level with dimension theory (Base/Dim.v): field with decidable equality =================
+   C03_full_statement (below) plus ONE hypothesis, decidable equality on the carrier, word for word otherwise:
+   Ti 0 . T 0 = I is no longer assumed (square matrices: T 0 . Ti 0 = I implies it, Dim.right_inv_is_left_inv), "no zero
+   divisors" and 1 <> 0 follow from field_theory. *)
+Theorem C03_full_dec : forall (R:Type) (K:Ops R),
+  field_theory (o0 K) (o1 K) (oadd K) (omul K) (osub K) (oopp K) (odiv K) (oinv K) (@eq R) ->
+  (forall x y:R, {x = y} + {x <> y}) ->
+  forall br n_ref nmov n (obs L:nat -> fmat R) (Cr A:fmat R) (Cm T Ti:nat -> fmat R) (Q Rq Ri:fmat R),
+  (forall k, (k < length nmov)%nat ->
+     feq (S br * (n_ref + nth k nmov 0%nat)) n (obs k)
+         (fmul K n (obsv K n (n_ref + nth k nmov 0%nat) (stack n_ref Cr (Cm k)) A) (T k))) ->
+  (forall k, (k < length nmov)%nat -> feq n n (fmul K n (T k) (Ti k)) (fid K)) ->
+  (forall k, (k < length nmov)%nat -> feq n n (fmul K (br * n_ref) (L k) (O_ref br n_ref nmov obs k)) (fid K)) ->
+  (0 < length nmov)%nat -> (1 <= br)%nat -> (0 < n_ref)%nat ->
+  feq ((br - 1) * nDOF n_ref nmov) n (obs_all K br n_ref nmov n obs L) (fmul K n Q Rq) ->
+  feq n n (fmul K ((br - 1) * nDOF n_ref nmov) (ftr Q) Q) (fid K) ->
+  feq n n (fmul K n Ri Rq) (fid K) ->
+  forall (Phi Phii Psi Psii:fmat R) (lamg lam:nat -> R),
+  feq n n (fmul K n A Phi) (fmul K n Phi (fdiag K lamg)) ->
+  feq n n (fmul K n Phi Phii) (fid K) -> feq n n (fmul K n Phii Phi) (fid K) ->
+  (forall i j, (i < n)%nat -> (j < n)%nat -> i <> j -> lamg i <> lamg j) ->
+  feq n n (fmul K n (A_hat K br n_ref nmov n obs L Q Ri) Psi) (fmul K n Psi (fdiag K lam)) ->
+  feq n n (fmul K n Psi Psii) (fid K) -> feq n n (fmul K n Psii Psi) (fid K) ->
+  exists sigma : nat -> nat,
+    (forall j, (j < n)%nat -> (sigma j < n)%nat) /\
+    (forall i j, (i < n)%nat -> (j < n)%nat -> sigma i = sigma j -> i = j) /\
+    (forall j, (j < n)%nat -> lam j = lamg (sigma j)) /\
+    (forall j, (j < n)%nat -> exists c:R, c <> o0 K /\
+       forall i, (i < nDOF n_ref nmov)%nat ->
+         fmul K n (C_hat K br n_ref nmov n obs L) Psi i j
+         = omul K c (fmul K n (C_global K n_ref nmov Cr Cm) Phi i (sigma j))).
+Proof. exact ms_full_dec. Qed.
+
+(* Further: the GLOBAL modal witness is discharged as well.  Instead of a modal matrix Phi with a two-sided inverse it is
+   enough that the n pairwise different numbers lamg k each have SOME eigenvector v k of the global A (non-zero on the
+   window): the modal matrix [v_0 | .. | v_(n-1)] is then invertible (Dim.modal_basis_exists).  Only the right inverses
+   T k . Ti k = I and the left inverse Psii Psi = I of the solver output are assumed.  Conclusion as C03_multiplicity:
+   a bijection sigma of the poles, lam_j = lamg_(sigma j), [lam_0 ..] a Permutation of [lamg_0 ..], and column j of
+   C_hat Psi a non-zero multiple of the global mode shape C_global v_(sigma j), whatever the per-setup bases / gains. *)
+Section MD.
+Variable R:Type. Variable K:Ops R.
+Hypothesis Fth : field_theory (o0 K) (o1 K) (oadd K) (omul K) (osub K) (oopp K) (odiv K) (oinv K) (@eq R).
+Hypothesis Rdec : forall x y:R, {x = y} + {x <> y}.
+
+Theorem C03_multiplicity_eigvecs :
+  forall br n_ref nmov n (obs L:nat -> fmat R) (Cr A:fmat R) (Cm T Ti:nat -> fmat R),
+  (forall k, (k < length nmov)%nat ->
+     feq (S br * (n_ref + nth k nmov 0%nat)) n (obs k)
+         (fmul K n (obsv K n (n_ref + nth k nmov 0%nat) (stack n_ref Cr (Cm k)) A) (T k))) ->
+  (forall k, (k < length nmov)%nat -> feq n n (fmul K n (T k) (Ti k)) (fid K)) ->
+  (forall k, (k < length nmov)%nat -> feq n n (fmul K (br * n_ref) (L k) (O_ref br n_ref nmov obs k)) (fid K)) ->
+  (0 < length nmov)%nat -> (1 <= br)%nat -> (0 < n_ref)%nat ->
+  forall (v:nat -> fmat R) (lamg:nat -> R),
+  (forall k, (k < n)%nat -> feq n 1 (fmul K n A (v k)) (fscal K (lamg k) (v k)) /\ ~ feq n 1 (v k) (fzero K)) ->
+  (forall i j, (i < n)%nat -> (j < n)%nat -> i <> j -> lamg i <> lamg j) ->
+  forall Q Rq Ri:fmat R,
+  feq ((br - 1) * nDOF n_ref nmov) n (obs_all K br n_ref nmov n obs L) (fmul K n Q Rq) ->
+  feq n n (fmul K ((br - 1) * nDOF n_ref nmov) (ftr Q) Q) (fid K) ->
+  feq n n (fmul K n Ri Rq) (fid K) ->
+  forall (Psi Psii:fmat R) (lam:nat -> R),
+  feq n n (fmul K n (A_hat K br n_ref nmov n obs L Q Ri) Psi) (fmul K n Psi (fdiag K lam)) ->
+  feq n n (fmul K n Psii Psi) (fid K) ->
+  (exists sigma : nat -> nat,
+    (forall j, (j < n)%nat -> (sigma j < n)%nat) /\
+    (forall i j, (i < n)%nat -> (j < n)%nat -> sigma i = sigma j -> i = j) /\
+    (forall i, (i < n)%nat -> exists j, (j < n)%nat /\ sigma j = i) /\
+    (forall j, (j < n)%nat -> lam j = lamg (sigma j)) /\
+    (forall j, (j < n)%nat -> exists c:R, c <> o0 K /\
+       forall i, (i < nDOF n_ref nmov)%nat ->
+         fmul K n (C_hat K br n_ref nmov n obs L) Psi i j
+         = omul K c (fmul K n (C_global K n_ref nmov Cr Cm) (v (sigma j)) i 0%nat))) /\
+  Permutation (tab n lam) (tab n lamg).
+Proof. exact (ms_modal_eigvecs_qr R K Fth Rdec). Qed.
+
+Theorem C03_multiplicity_eigvecs_linv :
+  forall br n_ref nmov n (obs L:nat -> fmat R) (Cr A:fmat R) (Cm T Ti:nat -> fmat R),
+  (forall k, (k < length nmov)%nat ->
+     feq (S br * (n_ref + nth k nmov 0%nat)) n (obs k)
+         (fmul K n (obsv K n (n_ref + nth k nmov 0%nat) (stack n_ref Cr (Cm k)) A) (T k))) ->
+  (forall k, (k < length nmov)%nat -> feq n n (fmul K n (T k) (Ti k)) (fid K)) ->
+  (forall k, (k < length nmov)%nat -> feq n n (fmul K (br * n_ref) (L k) (O_ref br n_ref nmov obs k)) (fid K)) ->
+  (0 < length nmov)%nat -> (1 <= br)%nat -> (0 < n_ref)%nat ->
+  forall (v:nat -> fmat R) (lamg:nat -> R),
+  (forall k, (k < n)%nat -> feq n 1 (fmul K n A (v k)) (fscal K (lamg k) (v k)) /\ ~ feq n 1 (v k) (fzero K)) ->
+  (forall i j, (i < n)%nat -> (j < n)%nat -> i <> j -> lamg i <> lamg j) ->
+  forall Lp:fmat R,
+  feq n n (fmul K ((br - 1) * nDOF n_ref nmov) Lp (obs_all K br n_ref nmov n obs L)) (fid K) ->
+  forall (Psi Psii:fmat R) (lam:nat -> R),
+  feq n n (fmul K n (A_of_linv K br n_ref nmov n obs L Lp) Psi) (fmul K n Psi (fdiag K lam)) ->
+  feq n n (fmul K n Psii Psi) (fid K) ->
+  (exists sigma : nat -> nat,
+    (forall j, (j < n)%nat -> (sigma j < n)%nat) /\
+    (forall i j, (i < n)%nat -> (j < n)%nat -> sigma i = sigma j -> i = j) /\
+    (forall i, (i < n)%nat -> exists j, (j < n)%nat /\ sigma j = i) /\
+    (forall j, (j < n)%nat -> lam j = lamg (sigma j)) /\
+    (forall j, (j < n)%nat -> exists c:R, c <> o0 K /\
+       forall i, (i < nDOF n_ref nmov)%nat ->
+         fmul K n (C_hat K br n_ref nmov n obs L) Psi i j
+         = omul K c (fmul K n (C_global K n_ref nmov Cr Cm) (v (sigma j)) i 0%nat))) /\
+  Permutation (tab n lam) (tab n lamg).
+Proof. exact (ms_modal_eigvecs_linv R K Fth Rdec). Qed.
+
+(* ... and the identified state matrix has NO other eigenvalue: any eigen-pair (mu, w) of A_hat, w non-zero on the window -
+   not only the columns of the returned decomposition - carries one of the global poles *)
+Theorem C03_no_spurious_pole :
+  forall br n_ref nmov n (obs L:nat -> fmat R) (Cr A:fmat R) (Cm T Ti:nat -> fmat R),
+  (forall k, (k < length nmov)%nat ->
+     feq (S br * (n_ref + nth k nmov 0%nat)) n (obs k)
+         (fmul K n (obsv K n (n_ref + nth k nmov 0%nat) (stack n_ref Cr (Cm k)) A) (T k))) ->
+  (forall k, (k < length nmov)%nat -> feq n n (fmul K n (T k) (Ti k)) (fid K)) ->
+  (forall k, (k < length nmov)%nat -> feq n n (fmul K (br * n_ref) (L k) (O_ref br n_ref nmov obs k)) (fid K)) ->
+  (0 < length nmov)%nat -> (1 <= br)%nat -> (0 < n_ref)%nat ->
+  forall (v:nat -> fmat R) (lamg:nat -> R),
+  (forall k, (k < n)%nat -> feq n 1 (fmul K n A (v k)) (fscal K (lamg k) (v k)) /\ ~ feq n 1 (v k) (fzero K)) ->
+  (forall i j, (i < n)%nat -> (j < n)%nat -> i <> j -> lamg i <> lamg j) ->
+  forall Q Rq Ri:fmat R,
+  feq ((br - 1) * nDOF n_ref nmov) n (obs_all K br n_ref nmov n obs L) (fmul K n Q Rq) ->
+  feq n n (fmul K ((br - 1) * nDOF n_ref nmov) (ftr Q) Q) (fid K) ->
+  feq n n (fmul K n Ri Rq) (fid K) ->
+  forall (mu:R) (w:fmat R),
+  feq n 1 (fmul K n (A_hat K br n_ref nmov n obs L Q Ri) w) (fscal K mu w) /\ ~ feq n 1 w (fzero K) ->
+  exists i, (i < n)%nat /\ mu = lamg i.
+Proof. exact (ms_no_spurious_qr R K Fth Rdec). Qed.
+
+Theorem C03_no_spurious_pole_linv :
+  forall br n_ref nmov n (obs L:nat -> fmat R) (Cr A:fmat R) (Cm T Ti:nat -> fmat R),
+  (forall k, (k < length nmov)%nat ->
+     feq (S br * (n_ref + nth k nmov 0%nat)) n (obs k)
+         (fmul K n (obsv K n (n_ref + nth k nmov 0%nat) (stack n_ref Cr (Cm k)) A) (T k))) ->
+  (forall k, (k < length nmov)%nat -> feq n n (fmul K n (T k) (Ti k)) (fid K)) ->
+  (forall k, (k < length nmov)%nat -> feq n n (fmul K (br * n_ref) (L k) (O_ref br n_ref nmov obs k)) (fid K)) ->
+  (0 < length nmov)%nat -> (1 <= br)%nat -> (0 < n_ref)%nat ->
+  forall (v:nat -> fmat R) (lamg:nat -> R),
+  (forall k, (k < n)%nat -> feq n 1 (fmul K n A (v k)) (fscal K (lamg k) (v k)) /\ ~ feq n 1 (v k) (fzero K)) ->
+  (forall i j, (i < n)%nat -> (j < n)%nat -> i <> j -> lamg i <> lamg j) ->
+  forall Lp:fmat R,
+  feq n n (fmul K ((br - 1) * nDOF n_ref nmov) Lp (obs_all K br n_ref nmov n obs L)) (fid K) ->
+  forall (mu:R) (w:fmat R),
+  feq n 1 (fmul K n (A_of_linv K br n_ref nmov n obs L Lp) w) (fscal K mu w) /\ ~ feq n 1 w (fzero K) ->
+  exists i, (i < n)%nat /\ mu = lamg i.
+Proof. exact (ms_no_spurious_linv R K Fth Rdec). Qed.
+
+(* the solver contract "Psi has a left inverse" in checkable form: an output with non-zero columns and pairwise different
+   eigenvalues is two-sided invertible (eigenvectors of different eigenvalues are independent, Dim.eig_indep) *)
+Theorem C03_eig_output_invertible : forall n (Ah Psi:fmat R) (lam:nat -> R),
+  feq n n (fmul K n Ah Psi) (fmul K n Psi (fdiag K lam)) ->
+  (forall k, (k < n)%nat -> ~ (forall i, (i < n)%nat -> Psi i k = o0 K)) ->
+  (forall i j, (i < n)%nat -> (j < n)%nat -> i <> j -> lam i <> lam j) ->
+  exists Psii:fmat R, feq n n (fmul K n Psi Psii) (fid K) /\ feq n n (fmul K n Psii Psi) (fid K).
+Proof. exact (eig_output_invertible R K Fth Rdec). Qed.
+End MD.
+
+(* ================= complex poles of a real system =================
+   K a formally real field with decidable equality (Qc; classically the reals), COps K its complexification (a field:
+   Dim.cplx_field_theory).  All DATA are real matrices over K (per-setup realisations obs k, pinv outputs L k, sensors Cr /
+   Cm k, state matrix A, bases T k, QR factors), read as complex ones through ms_cemb (entrywise x |-> (x, 0), the map
+   cemb of C01); the poles lamg k, their eigenvectors v k and the solver output (Psi, lam) for the REAL matrix A_hat are
+   complex.  Same conclusions. *)
+Section MC.
+Variable R:Type. Variable K:Ops R.
+Hypothesis Fth : field_theory (o0 K) (o1 K) (oadd K) (omul K) (osub K) (oopp K) (odiv K) (oinv K) (@eq R).
+Hypothesis Rdec : forall x y:R, {x = y} + {x <> y}.
+Hypothesis Hreal : forall a b:R, oadd K (omul K a a) (omul K b b) = o0 K -> a = o0 K.
+
+Theorem C03_multiplicity_complex :
+  forall br n_ref nmov n (obs L:nat -> fmat R) (Cr A:fmat R) (Cm T Ti:nat -> fmat R),
+  (forall k, (k < length nmov)%nat ->
+     feq (S br * (n_ref + nth k nmov 0%nat)) n (obs k)
+         (fmul K n (obsv K n (n_ref + nth k nmov 0%nat) (stack n_ref Cr (Cm k)) A) (T k))) ->
+  (forall k, (k < length nmov)%nat -> feq n n (fmul K n (T k) (Ti k)) (fid K)) ->
+  (forall k, (k < length nmov)%nat -> feq n n (fmul K (br * n_ref) (L k) (O_ref br n_ref nmov obs k)) (fid K)) ->
+  (0 < length nmov)%nat -> (1 <= br)%nat -> (0 < n_ref)%nat ->
+  forall (v:nat -> fmat (Cplx.C R)) (lamg:nat -> Cplx.C R),
+  (forall k, (k < n)%nat -> feq n 1 (fmul (COps K) n (ms_cemb K A) (v k)) (fscal (COps K) (lamg k) (v k)) /\
+                            ~ feq n 1 (v k) (fzero (COps K))) ->
+  (forall i j, (i < n)%nat -> (j < n)%nat -> i <> j -> lamg i <> lamg j) ->
+  forall Q Rq Ri:fmat R,
+  feq ((br - 1) * nDOF n_ref nmov) n (obs_all K br n_ref nmov n obs L) (fmul K n Q Rq) ->
+  feq n n (fmul K ((br - 1) * nDOF n_ref nmov) (ftr Q) Q) (fid K) ->
+  feq n n (fmul K n Ri Rq) (fid K) ->
+  forall (Psi Psii:fmat (Cplx.C R)) (lam:nat -> Cplx.C R),
+  feq n n (fmul (COps K) n (ms_cemb K (A_hat K br n_ref nmov n obs L Q Ri)) Psi) (fmul (COps K) n Psi (fdiag (COps K) lam)) ->
+  feq n n (fmul (COps K) n Psii Psi) (fid (COps K)) ->
+  (exists sigma : nat -> nat,
+    (forall j, (j < n)%nat -> (sigma j < n)%nat) /\
+    (forall i j, (i < n)%nat -> (j < n)%nat -> sigma i = sigma j -> i = j) /\
+    (forall i, (i < n)%nat -> exists j, (j < n)%nat /\ sigma j = i) /\
+    (forall j, (j < n)%nat -> lam j = lamg (sigma j)) /\
+    (forall j, (j < n)%nat -> exists c:Cplx.C R, c <> c0 K /\
+       forall i, (i < nDOF n_ref nmov)%nat ->
+         fmul (COps K) n (ms_cemb K (C_hat K br n_ref nmov n obs L)) Psi i j
+         = cmul K c (fmul (COps K) n (ms_cemb K (C_global K n_ref nmov Cr Cm)) (v (sigma j)) i 0%nat))) /\
+  Permutation (tab n lam) (tab n lamg).
+Proof. exact (ms_modal_cplx_qr R K Fth Rdec Hreal). Qed.
+
+Theorem C03_multiplicity_complex_linv :
+  forall br n_ref nmov n (obs L:nat -> fmat R) (Cr A:fmat R) (Cm T Ti:nat -> fmat R),
+  (forall k, (k < length nmov)%nat ->
+     feq (S br * (n_ref + nth k nmov 0%nat)) n (obs k)
+         (fmul K n (obsv K n (n_ref + nth k nmov 0%nat) (stack n_ref Cr (Cm k)) A) (T k))) ->
+  (forall k, (k < length nmov)%nat -> feq n n (fmul K n (T k) (Ti k)) (fid K)) ->
+  (forall k, (k < length nmov)%nat -> feq n n (fmul K (br * n_ref) (L k) (O_ref br n_ref nmov obs k)) (fid K)) ->
+  (0 < length nmov)%nat -> (1 <= br)%nat -> (0 < n_ref)%nat ->
+  forall (v:nat -> fmat (Cplx.C R)) (lamg:nat -> Cplx.C R),
+  (forall k, (k < n)%nat -> feq n 1 (fmul (COps K) n (ms_cemb K A) (v k)) (fscal (COps K) (lamg k) (v k)) /\
+                            ~ feq n 1 (v k) (fzero (COps K))) ->
+  (forall i j, (i < n)%nat -> (j < n)%nat -> i <> j -> lamg i <> lamg j) ->
+  forall Lp:fmat R,
+  feq n n (fmul K ((br - 1) * nDOF n_ref nmov) Lp (obs_all K br n_ref nmov n obs L)) (fid K) ->
+  forall (Psi Psii:fmat (Cplx.C R)) (lam:nat -> Cplx.C R),
+  feq n n (fmul (COps K) n (ms_cemb K (A_of_linv K br n_ref nmov n obs L Lp)) Psi) (fmul (COps K) n Psi (fdiag (COps K) lam)) ->
+  feq n n (fmul (COps K) n Psii Psi) (fid (COps K)) ->
+  (exists sigma : nat -> nat,
+    (forall j, (j < n)%nat -> (sigma j < n)%nat) /\
+    (forall i j, (i < n)%nat -> (j < n)%nat -> sigma i = sigma j -> i = j) /\
+    (forall i, (i < n)%nat -> exists j, (j < n)%nat /\ sigma j = i) /\
+    (forall j, (j < n)%nat -> lam j = lamg (sigma j)) /\
+    (forall j, (j < n)%nat -> exists c:Cplx.C R, c <> c0 K /\
+       forall i, (i < nDOF n_ref nmov)%nat ->
+         fmul (COps K) n (ms_cemb K (C_hat K br n_ref nmov n obs L)) Psi i j
+         = cmul K c (fmul (COps K) n (ms_cemb K (C_global K n_ref nmov Cr Cm)) (v (sigma j)) i 0%nat))) /\
+  Permutation (tab n lam) (tab n lamg).
+Proof. exact (ms_modal_cplx_linv R K Fth Rdec Hreal). Qed.
+
+Theorem C03_no_spurious_pole_complex :
+  forall br n_ref nmov n (obs L:nat -> fmat R) (Cr A:fmat R) (Cm T Ti:nat -> fmat R),
+  (forall k, (k < length nmov)%nat ->
+     feq (S br * (n_ref + nth k nmov 0%nat)) n (obs k)
+         (fmul K n (obsv K n (n_ref + nth k nmov 0%nat) (stack n_ref Cr (Cm k)) A) (T k))) ->
+  (forall k, (k < length nmov)%nat -> feq n n (fmul K n (T k) (Ti k)) (fid K)) ->
+  (forall k, (k < length nmov)%nat -> feq n n (fmul K (br * n_ref) (L k) (O_ref br n_ref nmov obs k)) (fid K)) ->
+  (0 < length nmov)%nat -> (1 <= br)%nat -> (0 < n_ref)%nat ->
+  forall (v:nat -> fmat (Cplx.C R)) (lamg:nat -> Cplx.C R),
+  (forall k, (k < n)%nat -> feq n 1 (fmul (COps K) n (ms_cemb K A) (v k)) (fscal (COps K) (lamg k) (v k)) /\
+                            ~ feq n 1 (v k) (fzero (COps K))) ->
+  (forall i j, (i < n)%nat -> (j < n)%nat -> i <> j -> lamg i <> lamg j) ->
+  forall Q Rq Ri:fmat R,
+  feq ((br - 1) * nDOF n_ref nmov) n (obs_all K br n_ref nmov n obs L) (fmul K n Q Rq) ->
+  feq n n (fmul K ((br - 1) * nDOF n_ref nmov) (ftr Q) Q) (fid K) ->
+  feq n n (fmul K n Ri Rq) (fid K) ->
+  forall (mu:Cplx.C R) (w:fmat (Cplx.C R)),
+  feq n 1 (fmul (COps K) n (ms_cemb K (A_hat K br n_ref nmov n obs L Q Ri)) w) (fscal (COps K) mu w) /\
+  ~ feq n 1 w (fzero (COps K)) ->
+  exists i, (i < n)%nat /\ mu = lamg i.
+Proof. exact (ms_no_spurious_cplx_qr R K Fth Rdec Hreal). Qed.
+
+Theorem C03_no_spurious_pole_complex_linv :
+  forall br n_ref nmov n (obs L:nat -> fmat R) (Cr A:fmat R) (Cm T Ti:nat -> fmat R),
+  (forall k, (k < length nmov)%nat ->
+     feq (S br * (n_ref + nth k nmov 0%nat)) n (obs k)
+         (fmul K n (obsv K n (n_ref + nth k nmov 0%nat) (stack n_ref Cr (Cm k)) A) (T k))) ->
+  (forall k, (k < length nmov)%nat -> feq n n (fmul K n (T k) (Ti k)) (fid K)) ->
+  (forall k, (k < length nmov)%nat -> feq n n (fmul K (br * n_ref) (L k) (O_ref br n_ref nmov obs k)) (fid K)) ->
+  (0 < length nmov)%nat -> (1 <= br)%nat -> (0 < n_ref)%nat ->
+  forall (v:nat -> fmat (Cplx.C R)) (lamg:nat -> Cplx.C R),
+  (forall k, (k < n)%nat -> feq n 1 (fmul (COps K) n (ms_cemb K A) (v k)) (fscal (COps K) (lamg k) (v k)) /\
+                            ~ feq n 1 (v k) (fzero (COps K))) ->
+  (forall i j, (i < n)%nat -> (j < n)%nat -> i <> j -> lamg i <> lamg j) ->
+  forall Lp:fmat R,
+  feq n n (fmul K ((br - 1) * nDOF n_ref nmov) Lp (obs_all K br n_ref nmov n obs L)) (fid K) ->
+  forall (mu:Cplx.C R) (w:fmat (Cplx.C R)),
+  feq n 1 (fmul (COps K) n (ms_cemb K (A_of_linv K br n_ref nmov n obs L Lp)) w) (fscal (COps K) mu w) /\
+  ~ feq n 1 w (fzero (COps K)) ->
+  exists i, (i < n)%nat /\ mu = lamg i.
+Proof. exact (ms_no_spurious_cplx_linv R K Fth Rdec Hreal). Qed.
+
+Theorem C03_eig_output_invertible_complex : forall n (Ah Psi:fmat (Cplx.C R)) (lam:nat -> Cplx.C R),
+  feq n n (fmul (COps K) n Ah Psi) (fmul (COps K) n Psi (fdiag (COps K) lam)) ->
+  (forall k, (k < n)%nat -> ~ (forall i, (i < n)%nat -> Psi i k = c0 K)) ->
+  (forall i j, (i < n)%nat -> (j < n)%nat -> i <> j -> lam i <> lam j) ->
+  exists Psii:fmat (Cplx.C R), feq n n (fmul (COps K) n Psi Psii) (fid (COps K)) /\ feq n n (fmul (COps K) n Psii Psi) (fid (COps K)).
+Proof. exact (eig_output_invertible_cplx R K Fth Rdec Hreal). Qed.
+End MC.
+
+(* What is NOT proved (asserts nothing).  The statement below is the modal level over an ARBITRARY field.  As written it
+   lacks exactly ONE hypothesis, decidable equality on the carrier (forall x y:R, {x = y} + {x <> y}), and nothing else:
+   with that hypothesis added it is the theorem C03_full_dec above, word for word.  (Decidable equality is what lets one
+   pick a non-zero coordinate of an eigenvector and run the elimination of Base/Dim.v on a generic carrier; it holds at Qc
+   and, classically, at the reals and at their complexifications.  Ti 0 . T 0 = I, "no zero divisors" and 1 <> 0 are NOT
+   missing: they are derived.)  C03_multiplicity_eigvecs / _complex above prove more than this statement under that one
+   extra hypothesis (no modal matrix, bijection onto the poles, Permutation, complex poles of real data).
+   Also not proved: the same with ordmax > n, every per-setup matrix zero-padded to [O_k T_k, 0] (pinv [X,0] = [X^+;0]);
+   the transcendental map of ac2mp (proved for C01 at the reals); and the single-setup realisation step that delivers the
+   hypothesis on obs k (C01). *)
 Definition C03_full_statement : Prop :=
   forall (R:Type) (K:Ops R),
   field_theory (o0 K) (o1 K) (oadd K) (omul K) (osub K) (oopp K) (odiv K) (oinv K) (@eq R) ->
@@ -317,6 +594,17 @@ Print Assumptions C03_eigpair_transport_back.
 Print Assumptions C03_obs_all_l_entry.
 Print Assumptions C03_multiplicity.
 Print Assumptions C03_multiplicity_linv.
+Print Assumptions C03_full_dec.
+Print Assumptions C03_multiplicity_eigvecs.
+Print Assumptions C03_multiplicity_eigvecs_linv.
+Print Assumptions C03_no_spurious_pole.
+Print Assumptions C03_no_spurious_pole_linv.
+Print Assumptions C03_eig_output_invertible.
+Print Assumptions C03_multiplicity_complex.
+Print Assumptions C03_multiplicity_complex_linv.
+Print Assumptions C03_no_spurious_pole_complex.
+Print Assumptions C03_no_spurious_pole_complex_linv.
+Print Assumptions C03_eig_output_invertible_complex.
 
 (* non-vacuity 1: the split on a 3-sample, 4-channel dataset with references listed as [2;0], and its error cases *)
 Example C03_example_split :
@@ -405,3 +693,53 @@ Proof. exact ec3_hyps. Qed.
 Example C03_example_carrier :
   (forall a b:Qc, omul QcOps a b = o0 QcOps -> a = o0 QcOps \/ b = o0 QcOps) /\ o1 QcOps <> o0 QcOps.
 Proof. exact (conj qc_integral qc_one_neq_zero). Qed.
+
+(* non-vacuity 5: the hypotheses of C03_multiplicity_eigvecs_linv / C03_no_spurious_pole_linv / C03_eig_output_invertible on
+   the rational instance of non-vacuity 4 - only the two global eigenvectors (1, 1/2), (1, 1/4) are supplied (no modal
+   matrix, no inverse of it, no Ti 0 . T 0 = I); the carrier is a field with decidable equality (QcFth, Qc_eq_dec) *)
+Example C03_example_eigvecs :
+  (forall k, (k < 2)%nat -> feq (4 * 2) 2 (ec3_obs k) (fmul QcOps 2 (obsv QcOps 2 2 (stack 1 ec3_Cr (ec3_Cm k)) ec3_A) (ec3_T k))) /\
+  (forall k, (k < 2)%nat -> feq 2 2 (fmul QcOps 2 (ec3_T k) (ec3_Ti k)) (fid QcOps)) /\
+  (forall k, (k < 2)%nat -> feq 2 2 (fmul QcOps (3 * 1) (ec3_L k) (O_ref 3 1 [1;1]%nat ec3_obs k)) (fid QcOps)) /\
+  (forall k, (k < 2)%nat -> feq 2 1 (fmul QcOps 2 ec3_A (ec3d_v k)) (fscal QcOps (ec3_lamg k) (ec3d_v k)) /\
+                            ~ feq 2 1 (ec3d_v k) (fzero QcOps)) /\
+  (forall i j, (i < 2)%nat -> (j < 2)%nat -> i <> j -> ec3_lamg i <> ec3_lamg j) /\
+  feq 2 2 (fmul QcOps ((3 - 1) * 3) ec3_Lp (obs_all QcOps 3 1 [1;1]%nat 2 ec3_obs ec3_L)) (fid QcOps) /\
+  feq 2 2 (fmul QcOps 2 (A_of_linv QcOps 3 1 [1;1]%nat 2 ec3_obs ec3_L ec3_Lp) ec3_Psi) (fmul QcOps 2 ec3_Psi (ediag QcOps ec3_lam)) /\
+  feq 2 2 (fmul QcOps 2 ec3_Psii ec3_Psi) (fid QcOps) /\
+  (forall k, (k < 2)%nat -> ~ (forall i, (i < 2)%nat -> ec3_Psi i k = o0 QcOps)) /\
+  (forall i j, (i < 2)%nat -> (j < 2)%nat -> i <> j -> ec3_lam i <> ec3_lam j).
+Proof. exact ec3d_hyps. Qed.
+(* ... and the theorems APPLIED to it: the identified poles are a permutation of the global ones, 1/3 is no eigenvalue *)
+Example C03_example_eigvecs_applied :
+  Permutation (tab 2 ec3_lam) (tab 2 ec3_lamg) /\
+  forall w, ~ (feq 2 1 (fmul QcOps 2 (A_of_linv QcOps 3 1 [1;1]%nat 2 ec3_obs ec3_L ec3_Lp) w) (fscal QcOps (q 1 3) w) /\
+               ~ feq 2 1 w (fzero QcOps)).
+Proof. exact ec3d_concl. Qed.
+
+(* non-vacuity 6: the hypotheses of C03_multiplicity_complex_linv / C03_no_spurious_pole_complex_linv at the Gaussian
+   rationals COps QcOps: the REAL global system A = [[0,1],[-1/2,1]] of non-vacuity 2 has the COMPLEX pole pair (1 +- i)/2
+   with modes (1, lam); two setups, real bases / gains as before; the solver output for the real A_hat lists the pair in the
+   other order with eigenvectors scaled by 2i and 3.  Qc is formally real (EigCount.qc_formally_real). *)
+Example C03_example_complex :
+  (forall k, (k < 2)%nat -> feq (4 * 2) 2 (ecx_obs k) (fmul QcOps 2 (obsv QcOps 2 2 (stack 1 ec3_Cr (ec3_Cm k)) ecx_A) (ec3_T k))) /\
+  (forall k, (k < 2)%nat -> feq 2 2 (fmul QcOps 2 (ec3_T k) (ec3_Ti k)) (fid QcOps)) /\
+  (forall k, (k < 2)%nat -> feq 2 2 (fmul QcOps (3 * 1) (ecx_L k) (O_ref 3 1 [1;1]%nat ecx_obs k)) (fid QcOps)) /\
+  (forall k, (k < 2)%nat -> feq 2 1 (fmul QcC 2 (ms_cemb QcOps ecx_A) (ecx_v k)) (fscal QcC (ecx_lamg k) (ecx_v k)) /\
+                            ~ feq 2 1 (ecx_v k) (fzero QcC)) /\
+  (forall i j, (i < 2)%nat -> (j < 2)%nat -> i <> j -> ecx_lamg i <> ecx_lamg j) /\
+  feq 2 2 (fmul QcOps ((3 - 1) * 3) ecx_Lp (obs_all QcOps 3 1 [1;1]%nat 2 ecx_obs ecx_L)) (fid QcOps) /\
+  feq 2 2 (fmul QcC 2 (ms_cemb QcOps (A_of_linv QcOps 3 1 [1;1]%nat 2 ecx_obs ecx_L ecx_Lp)) ecx_Psi)
+          (fmul QcC 2 ecx_Psi (ediag QcC ecx_lam)) /\
+  feq 2 2 (fmul QcC 2 ecx_Psii ecx_Psi) (fid QcC) /\
+  tab 2 ecx_lam = [ecx_lamg 1%nat; ecx_lamg 0%nat].
+Proof. exact ecx_hyps. Qed.
+Example C03_example_complex_applied :
+  Permutation (tab 2 ecx_lam) (tab 2 ecx_lamg) /\
+  forall w, ~ (feq 2 1 (fmul QcC 2 (ms_cemb QcOps (A_of_linv QcOps 3 1 [1;1]%nat 2 ecx_obs ecx_L ecx_Lp)) w) (fscal QcC (q 1 2, q 0 1) w) /\
+               ~ feq 2 1 w (fzero QcC)).
+Proof. exact ecx_concl. Qed.
+Example C03_example_carrier_field :
+  field_theory (o0 QcOps) (o1 QcOps) (oadd QcOps) (omul QcOps) (osub QcOps) (oopp QcOps) (odiv QcOps) (oinv QcOps) (@eq Qc) /\
+  (forall a b:Qc, oadd QcOps (omul QcOps a a) (omul QcOps b b) = o0 QcOps -> a = o0 QcOps).
+Proof. exact (conj QcFth qc_formally_real). Qed.
